@@ -18,6 +18,7 @@ EXTRA = {
     "C05_m2": [("C16", ["--cfg", "sse2", "--only", "vec3a_get4"])],
     "C02_m1": [("C08", ["--only", "vec3a_element_sum"])],
     "C08_m1": [("C06", ["--cfg", "sse2", "--only", "mat3a_transpose"])],
+    "C10_r2m2": [("C05", ["--cfg", "none"])],
 }
 
 
